@@ -560,3 +560,14 @@ def run(repo: Repo, rep: Report) -> None:  # noqa: F811
                    "the base is cut off the front of the IRI and the remainder is written as a relative reference without checking that it resolves back: with base <http://e/a/b>, <http://e/a/bc> is written <c> and read as <http://e/a/c>", node=builds[0])
     if n_rel < 2:
         raise AnalysisError("expected Serializer.relativize and RecursiveSerializer.relativize")
+
+
+_run_before_borrow = run
+
+
+def run(repo: Repo, rep: Report) -> None:  # noqa: F811
+    _run_before_borrow(repo, rep)
+    from vlib.core import borrow
+
+    borrow(repo, rep, "C03", "C17", ('C17.a',))
+    borrow(repo, rep, "C03", "C05", ('C05.h',))
